@@ -39,7 +39,8 @@ def build():
         target = os.path.join(ROOT, "build", "rac-alt-target")
     else:
         target = os.path.join(ROOT, "build", "rac-target")
-    env = dict(os.environ, CARGO_NET_OFFLINE="true")
+    # the target directory follows this checkout (rac/.cargo/config.toml names /verif/build/rac-target; a copy of /verif elsewhere must not share or miss it)
+    env = dict(os.environ, CARGO_NET_OFFLINE="true", CARGO_TARGET_DIR=target)
     p = subprocess.run(["cargo", "build", "--release", "--offline"], cwd=src, env=env, capture_output=True, text=True)
     if p.returncode != 0:
         raise RuntimeError("rac driver does not build against the tree (API used by the contracts changed = lost anchor):\n" + p.stderr[-1500:])
